@@ -150,7 +150,12 @@ func genC14(t *rapid.T) C14Case {
 				m = model.MkFinite(false, h.GenDigitsN(t, "bm2", int(c.P)), m.Exp)
 			}
 			var d *big.Int
-			switch rapid.IntRange(0, 2).Draw(t, "bden") {
+			switch rapid.IntRange(0, 3).Draw(t, "bden") {
+			case 3:
+				// 1/D thousands of digits below the rounding position (10^k + 1, k up to 3000): whatever is cut off an
+				// operand "because digits that far down cannot matter" still decides the direction
+				d = new(big.Int).Exp(big.NewInt(10), big.NewInt(int64(rapid.IntRange(200, 3000).Draw(t, "bk"))), nil)
+				d.Add(d, big.NewInt(int64(rapid.SampledFrom([]int{1, 3, 7, 9}).Draw(t, "bk1"))))
 			case 0:
 				d = new(big.Int).Exp(big.NewInt(3), big.NewInt(int64(rapid.IntRange(60, 200).Draw(t, "b3"))), nil)
 			case 1:
